@@ -25,7 +25,7 @@
    No proofs here: see Proofs/C09*.v. *)
 From Coq Require Export String.
 From PV Require Export Base.Bytes Base.Outcome Base.Fmt Base.Prim Spec.C09Dyn Gen.ElfLayouts.
-From PV Require Import Base.Enum Gen.Tables.
+From PV Require Import Base.Enum Gen.Tables Gen.C09Hash.
 Open Scope string_scope.
 Open Scope list_scope.
 Open Scope Z_scope.
@@ -476,10 +476,18 @@ Definition iter_segments (f : elf) : res (list phdr) :=
   do ps <- segment_headers f; do _ <- make_segments f ps; Ok ps.
 
 (* ---------- hash tables: the symbol count ---------- *)
+(* structs._create_elf_hash: which (machine, class) pairs get 64-bit hash words is tabulated by the
+   translator (Gen/C09Hash.v), as is that layout *)
+Definition hash_wide (f : elf) : bool :=
+  existsb (fun p => (fst p =? machine_key (e_machine (f_eh f)))%string && Bool.eqb (snd p) (f_is64 f)) gen_hash_wide.
+Definition Elf_Hash_layout (f : elf) : layout :=
+  if hash_wide f then gen_Elf_Hash_wide (f_le f) else gen_Elf_Hash (f_le f) (f_is64 f).
 (* ELFHashTable.__init__ + get_number_of_symbols: params['nchains'] *)
 Definition sysv_num_symbols (f : elf) (off : Z) : res Z :=
-  do r <- parse_counted_at (gen_Elf_Hash (f_le f) (f_is64 f)) (f_le f) [0; 1]%nat (f_img f) off;
-  Ok (rec_z r "nchains").
+  match decode_counted_w (hash_wb (hash_wide f)) (Elf_Hash_layout f) (f_le f) [0; 1]%nat (seekz (f_img f) off) with
+  | Some (r, _) => Ok (rec_z r "nchains")
+  | None => Err EParse
+  end.
 
 (* the chain walk: stream.seek(pos); while True: cur = unpack(stream.read(4)); if cur & 1: return idx+1; idx += 1 *)
 Fixpoint gnu_walk (fuel : nat) (f : elf) (pos idx : Z) : res Z :=
